@@ -121,7 +121,21 @@ func (a *Adversary) byzVotes(vs *types.ValidatorSet, h, r int64, typ byte, bid t
 		if a.N.ValIndex(vs, b) < 0 {
 			continue
 		}
-		a.N.Publish(b, true, &pbft.VoteMessage{Vote: a.N.SignVote(vs, b, h, r, typ, bid)})
+		v := a.N.SignVote(vs, b, h, r, typ, bid)
+		if a.Relabel {
+			// the same signed vote (own address, own signature: neither field is covered by the sign
+			// bytes) under the index of every other validator, and never under its own
+			for k := 0; k < vs.Size(); k++ {
+				if k != v.ValidatorIndex {
+					c := *v
+					c.ValidatorIndex = k
+					a.N.Publish(b, true, &pbft.VoteMessage{Vote: &c})
+					a.Relabelled++
+				}
+			}
+			continue // and never under its own index
+		}
+		a.N.Publish(b, true, &pbft.VoteMessage{Vote: v})
 		a.ByzVotes++
 	}
 }
